@@ -96,14 +96,14 @@ def make_table(truth, rng, ph, forced=None):
 
 
 @contextlib.contextmanager
-def for_opts(opts, truth, seed):
+def for_opts(opts, truth, seed, forced=None):
     """If the option list selects the PROPKA route, serve a random table (pH from --with-ph) for this run."""
     if "--titration-state-method=propka" not in opts:
         yield None
         return
     install()
     ph = next((float(o.split("=")[1]) for o in opts if o.startswith("--with-ph=")), 7.0)
-    rows, groups = make_table(truth, random.Random(seed * 31 + 7), ph)
+    rows, groups = make_table(truth, random.Random(seed * 31 + 7), ph, forced)
     STUB["table"] = rows
     try:
         yield groups
